@@ -20,7 +20,11 @@ pub(crate) fn checking_table_stub(probs: &[i32], acc_log: u8) -> FSETable {
     assert!(sum == 1i64 << acc_log, "normalised probabilities do not sum to the table size");
     nd::set_ghost(6, 1);
     nd::set_ghost(7, probs.len() as u64);
-    FSETable { states: core::array::from_fn(|_| SymbolStates { states: Vec::new(), probability: 0 }), table_size: 1 << acc_log }
+    // the table value is never looked at (the harness forgets it); initialising 256 symbol-state vectors is what made
+    // these harnesses slow
+    let mut t = unsafe { core::mem::MaybeUninit::<FSETable>::uninit().assume_init() };
+    t.table_size = 1 << acc_log;
+    t
 }
 
 // C12/C16: normalisation of every histogram over N symbol slots (leading zeros allowed, last slot non-zero as
